@@ -84,7 +84,7 @@ def run(repo_dir, contract_modules, functions, lemmas=(), timeout_ms=20000, slow
     for f in functions:
         c = REGISTRY.get(f)
         n = len(c.cases_) if (c is not None and c.cases_) else 1
-        if n > 4:
+        if n >= 2:
             step = max(1, n // 16)
             for a in range(0, n, step):
                 jobs.append((repo_dir, list(contract_modules), f, "function", (a, min(n, a + step))))
